@@ -154,7 +154,48 @@ func isContainerInvoke(c *ssa.CallCommon, name string) bool {
 }
 
 func containerCalls(fn *ssa.Function, name string) []ssa.CallInstruction {
-	return callsTo(fn, func(c *ssa.CallCommon) bool { return isContainerInvoke(c, name) })
+	return callsTo(fn, func(c *ssa.CallCommon) bool {
+		if isContainerInvoke(c, name) {
+			return true
+		}
+		// a lookup helper stands for the get it wraps
+		return name == "get" && isLookupHelper(c.StaticCallee())
+	})
+}
+
+// isLookupHelper: a plain function of the library with the result shape of
+// container.get — (*lazyNode, error) — every return of which is either a nil
+// node with a non-nil error, or exactly the two results of one container.get
+// call inside it (the helper resolves a location and looks the value up; its
+// results can be used wherever the get's results would be).
+func isLookupHelper(f *ssa.Function) bool {
+	if f == nil || f.Blocks == nil || f.Signature.Recv() != nil {
+		return false
+	}
+	res := f.Signature.Results()
+	if res.Len() != 2 || !isPtrToNamed(res.At(0).Type(), "lazyNode") || !isErrorType(res.At(1).Type()) {
+		return false
+	}
+	gets := callsTo(f, func(c *ssa.CallCommon) bool { return isContainerInvoke(c, "get") })
+	if len(gets) != 1 {
+		return false
+	}
+	g := gets[0].Value()
+	nGet := 0
+	for _, r := range liveReturns(f) {
+		v0, v1 := retVal(r, 0), retVal(r, 1)
+		if isNilConst(v0) && !isNilConst(v1) {
+			continue
+		}
+		e0, ok0 := v0.(*ssa.Extract)
+		e1, ok1 := v1.(*ssa.Extract)
+		if ok0 && ok1 && e0.Tuple == ssa.Value(g) && e1.Tuple == ssa.Value(g) && e0.Index == 0 && e1.Index == 1 {
+			nGet++
+			continue
+		}
+		return false
+	}
+	return nGet > 0
 }
 
 var rfc6902Kinds = []string{"add", "copy", "move", "remove", "replace", "test"}
@@ -315,6 +356,12 @@ func handlerEffects(h *ssa.Function) []string {
 			for _, m := range []string{"get", "set", "add", "remove"} {
 				if isContainerInvoke(com, m) {
 					set[m] = true
+				}
+			}
+			// the effects of the library's own small helpers count as the handler's
+			if f := com.StaticCallee(); f != nil && f.Blocks != nil && f.Signature.Recv() == nil && h.Pkg == f.Pkg && f != h {
+				if isLookupHelper(f) {
+					set["get"] = true
 				}
 			}
 		}
